@@ -23,18 +23,22 @@ CONSTANTS N,          \* number of types
           Ring,       \* TRUE: type i may only refer to i+1 (mod N) and to the root (long cycles with chords)
           ModesUsed,  \* subset of Modes explored for references (e.g. {"plain"} for the pure requirement graphs)
           FatTypes,   \* how many non-root types (1..FatTypes) may have as many properties as the root
-          RootForms,  \* subset of {"object", "nullable-object", "alias", "nullable-alias"}: what a type's own root node may be
+          RootForms,  \* subset of {"object", "nullable-object", "alias", "nullable-alias", "choice"}: what a type's own root node may be
           OptionalByDefault \* BOOLEAN: the schemas are created with "keys are optional by default": a property is a
                       \* mandatory link only when it says `optional: false` (mode "required")
 
 Types == 0..(N - 1)
-Modes == {"plain", "optional", "nullable", "array", "required"}
+\* "arraymin": the reference is one of two elements of an array that must not be empty: [@x, "leaf"] // {minItems: 1}
+\* (the other element alone makes an instance, so the link is not mandatory)
+Modes == {"plain", "optional", "nullable", "array", "required", "arraymin"}      \* ("mixed" and "shortcut" select further kinds)
 \* is a reference written with mode m a mandatory link?
-MandatoryMode(m) == m = "required" \/ (m = "plain" /\ ~OptionalByDefault)
+MandatoryMode(m) == m = "required" \/ (m \in {"plain", "mixed"} /\ ~OptionalByDefault)
 
 Targets(t) == IF Ring THEN {(t + 1) % N, 0} ELSE Types
 Refs(t)    == {[k |-> "ref", t |-> x, u |-> x, m |-> m] : x \in Targets(t), m \in ModesUsed \cap Modes}
-Choices(t) == IF Ring THEN {} ELSE {[k |-> "choice", t |-> pr[1], u |-> pr[2], m |-> "plain"] : pr \in {q \in Types \X Types : q[1] < q[2]}}
+\* a choice may carry an explicit `type: "mixed"` (mode "mixed"): the same thing said twice
+Choices(t) == IF Ring THEN {} ELSE {[k |-> "choice", t |-> pr[1], u |-> pr[2], m |-> md] :
+                                       pr \in {q \in Types \X Types : q[1] < q[2]}, md \in {"plain"} \cup (ModesUsed \cap {"mixed"})}
 Scalar     == [k |-> "scalar", t |-> 0, u |-> 0, m |-> "plain"]
 \* an optional key-shortcut property `@k: @x // {optional: true}` written next to a mandatory literal property whose
 \* key is spelled the same ("@k": 1): the two keys are different things, the link stays optional
@@ -52,12 +56,16 @@ vars == <<def, next>>
 \* an alias is written as its single plain reference
 AliasSets(t) == {{[k |-> "ref", t |-> x, u |-> x, m |-> "plain"]} : x \in Targets(t)}
 Init == def = <<>> /\ next = 0
+\* a type that is nothing but a choice `@x | @y`
+ChoiceSets(t) == {{c} : c \in Choices(t)}
 Define(f, S) == /\ next < N /\ f \in RootForms
                 /\ (f \in {"alias", "nullable-alias"}) => S \in AliasSets(next)
+                /\ (f = "choice") => S \in ChoiceSets(next)
                 /\ def' = Append(def, [form |-> f, props |-> S])       \* def[i+1] describes type i
                 /\ next' = next + 1
 Next == \E f \in RootForms :
           \E S \in (IF f \in {"alias", "nullable-alias"} THEN AliasSets(next)
+                    ELSE IF f = "choice" THEN ChoiceSets(next)
                     ELSE PropSets(next, IF next = 0 \/ next <= FatTypes THEN MaxRoot ELSE MaxOther)) : Define(f, S)
 Spec == Init /\ [][Next]_vars
 
